@@ -36,6 +36,9 @@ pub fn subs() -> Vec<Box<dyn AnySub>> {
             strat: || (instant(), ts_style(), any::<bool>(), 0u8..16).prop_map(|(i, st, q, pad)| TsCase { text: render(truncate_to_style(i, &st), st), query_carrier: q, pad }).boxed(),
             check: check_ts,
         }),
+        // one string directly after a same-length twin that differs in a single digit (or after itself):
+        // what was parsed before must not decide what is parsed now
+        Box::new(Sub { name: "consecutive-twins", quick: 15_000, thorough: 300_000, strat: twins, check: check_twins }),
         Box::new(Sub {
             name: "e2e-pin",
             quick: 6_000,
@@ -130,12 +133,24 @@ fn valid_ts() -> BoxedStrategy<String> {
 }
 
 pub fn mutated() -> BoxedStrategy<TsCase> {
-    (valid_ts(), 0u8..3, any::<u16>(), any::<u16>(), any::<bool>(), prop_oneof![3 => Just(0u8), 1 => 0u8..16])
+    (valid_ts(), 0u8..4, any::<u16>(), any::<u16>(), any::<bool>(), prop_oneof![3 => Just(0u8), 1 => 0u8..16])
         .prop_map(|(t, kind, pos, c, q, pad)| {
             const ALPHA: &[u8] = b"0123456789TZtz:+-., 9";
+            // what an intermediary or a sloppy client may put around a timestamp
+            const JUNK: &[&str] = &[", ", ", x", ", 20161231T235959Z", " ,", ",", ";", "; x", " x", " Z", "Z", " GMT", " UTC", "Z, ", ",0", ", 0", "/", "\"", "'", "(x)", "[UTC]", "=", "&", "%20"];
             let mut b: Vec<u8> = t.into_bytes();
             let ch = ALPHA[pick_idx(c, ALPHA.len())];
             match kind {
+                3 => {
+                    let j = JUNK[pick_idx(c, JUNK.len())].as_bytes();
+                    if pos % 4 == 0 {
+                        let mut v = j.to_vec();
+                        v.extend_from_slice(&b);
+                        b = v;
+                    } else {
+                        b.extend_from_slice(j);
+                    }
+                }
                 0 if !b.is_empty() => {
                     let i = pick_idx(pos, b.len());
                     b[i] = ch;
@@ -152,6 +167,52 @@ pub fn mutated() -> BoxedStrategy<TsCase> {
             TsCase { text: String::from_utf8(b).unwrap(), query_carrier: q, pad }
         })
         .boxed()
+}
+
+#[derive(Clone, Debug, Serialize, Deserialize, PartialEq, Eq)]
+pub struct Twins {
+    pub a: TsCase,
+    pub b: TsCase,
+}
+
+fn twins() -> BoxedStrategy<Twins> {
+    (instant(), ts_style(), "[0-9]{0,40}", any::<u16>(), any::<bool>(), 0u8..10, any::<bool>())
+        .prop_map(|(i, st, extra, pos, tail, digit, q)| {
+            let mut t = render(truncate_to_style(i, &st), st).into_bytes();
+            // lengthen the fraction (digits beyond the ninth do not change the instant)
+            if let Some(m) = t.iter().position(|c| *c == b'.' || *c == b',') {
+                let mut e = m + 1;
+                while e < t.len() && t[e].is_ascii_digit() {
+                    e += 1;
+                }
+                if e > m + 1 {
+                    for (k, c) in extra.bytes().enumerate() {
+                        t.insert(e + k, c);
+                    }
+                }
+            }
+            let mut u = t.clone();
+            let digits: Vec<usize> = (0..u.len()).filter(|k| u[*k].is_ascii_digit()).collect();
+            if !digits.is_empty() {
+                let k = if tail { digits[digits.len() - 1 - pick_idx(pos, digits.len().min(6))] } else { digits[pick_idx(pos, digits.len())] };
+                u[k] = if u[k] == b'0' + digit { b'0' + (digit + 1) % 10 } else { b'0' + digit };
+            }
+            let mk = |v: Vec<u8>| TsCase { text: String::from_utf8(v).unwrap(), query_carrier: q, pad: 0 };
+            Twins { a: mk(t), b: mk(u) }
+        })
+        .boxed()
+}
+
+pub fn check_twins(tw: &Twins, cc: &mut CaseCtx) -> CheckResult {
+    let mut scratch = CaseCtx::default();
+    check_ts(&tw.a, &mut scratch)?;
+    let after = |f: Failure| Failure::new(&format!("{}:after-twin", f.sig), format!("{} -- directly after parsing {:?}", f.msg, tw.a.text));
+    check_ts(&tw.b, cc).map_err(after)?;
+    check_ts(&tw.b, &mut scratch).map_err(after)?;
+    check_ts(&tw.a, &mut scratch).map_err(|f| Failure::new(&format!("{}:after-twin", f.sig), format!("{} -- directly after parsing {:?}", f.msg, tw.b.text)))?;
+    cc.class_if(tw.a.text.len() > 40, "longer-than-40");
+    cc.class_if(tw.a.text.len() == tw.b.text.len() && tw.a.text != tw.b.text, "same-length-one-digit-apart");
+    Ok(())
 }
 
 fn random_strings() -> BoxedStrategy<TsCase> {
